@@ -740,8 +740,9 @@ def directed_personas(year, seed, n):
         # Form 8995 with net capital gain above taxable income (lines 12-15), the capital-gain worksheet at its floors
         st_ = r.choice(['S', 'MFJ', 'HOH'])
         base_ = _stat.amount('standard_deduction', year, st_)
-        p = plain_persona(year, st_, round(base_ + r.choice([r.uniform(-9000, -500), r.uniform(-3000, 6000)]), 2), key=f'dirqbi:{seed}:{k}', deps_odc=1 if st_ == 'HOH' else 0, n_div=1,
-                               divs=[{'box_1a': 14000.0, 'box_1b': round(r.choice([14000.0, r.uniform(9000, 14000)]), 2), 'box_2a': round(r.uniform(0, 9000), 2), 'box_4': 0.0,
+        low_ = r.uniform(-9000, -500)
+        p = plain_persona(year, st_, round(base_ + (low_ if k % 2 == 0 else r.uniform(-3000, 6000)), 2), key=f'dirqbi:{seed}:{k}', deps_odc=1 if st_ == 'HOH' else 0, n_div=1,
+                               divs=[{'box_1a': 40000.0 if k % 2 == 0 else 14000.0, 'box_1b': round(40000.0 if k % 2 == 0 else r.uniform(9000, 14000), 2), 'box_2a': round(r.uniform(0, 9000), 2), 'box_4': 0.0,
                                       'box_5': round(r.uniform(50, 900), 2), 'box_7': 0.0, 'box_16_1': 0.0}])
         out.append(('F2q', p))
         # N.C. return with a small overpayment and designations on lines 29-32 around (also above) it
@@ -759,6 +760,15 @@ def directed_personas(year, seed, n):
                           n_div=1, divs=[{'box_1a': round(r.uniform(100, 1300), 2), 'box_1b': 0.0, 'box_2a': 0.0, 'box_4': 0.0, 'box_5': 0.0, 'box_7': 0.0,
                                           'box_16_1': round(r.uniform(5, 40), 2), 'box_14_1': 'NC', 'belongs_to': r.choice(['both', 'taxpayer'])}])
         out.append(('F8j', p))
+        if year == 2021:
+            # 2021 only: advance child tax credit payments above the credit for the qualifying children but below the total with the
+            # credit for other dependents (Schedule 8812 lines 14b-14i), and well above it (Part III, additional tax)
+            for u6, adv in ((0, 3250.0), (1, 3850.0), (1, round(r.uniform(4200, 6000), 2))):
+                st_ = r.choice(['HOH', 'MFJ', 'S'])
+                p = plain_persona(year, st_, round(r.uniform(40000, 90000), 2), key=f'diradv{u6}{int(adv)}:{seed}:{k}', deps_ctc=1, deps_odc=1)
+                p.n_under6 = u6
+                p.advance_ctc = adv
+                out.append(('F1a', p))
         # plain (fully taxable) IRA distributions of both spouses
         p = plain_persona(year, 'MFJ', [round(r.uniform(40000, 90000), 2), round(r.uniform(30000, 60000), 2)], key=f'dirira:{seed}:{k}')
         p.n_1099r = 2
